@@ -8,7 +8,11 @@
              if self._is_leaf: raise E("...")
              else: <fold>; self._value = value
          return self._value
-       <fold> ::= value = <init>; for .. in self.decomposition_dict.items(): <branches>
+       <fold> ::= value = <init>; for .. in self.decomposition_dict.items(): <branches>; [<trailing>]
+       points:  `value = np.zeros(Point.counter)` with body `value += weight * k.eval()`                       (BAny)
+             or `value = 0` with body `value = value + weight * k.eval()` and the optional <trailing>
+                `if len(self.decomposition_dict) == 0: value = np.zeros(Point.counter)`                         (BSum b)
+                (the accumulator is the local `value`; `self._value` is written by the LAST statement only)
        every branch that handles a non-constant key must add `weight * <key>.eval()` (points) /
        `weight * key.eval()`, `weight * np.dot(point1.eval(), point2.eval())` (expressions) unconditionally
        (no try, no early return, no `continue`); `assert k.get_is_leaf()` lines and the constant branch
@@ -108,11 +112,29 @@ def is_leaf_assert(s):
             and s.test.func.attr == "get_is_leaf")
 
 
+def value_rebind(s, pred):
+    """`value = value + X` with pred(X)"""
+    return (isinstance(s, ast.Assign) and len(s.targets) == 1 and isinstance(s.targets[0], ast.Name)
+            and s.targets[0].id == "value" and isinstance(s.value, ast.BinOp) and isinstance(s.value.op, ast.Add)
+            and isinstance(s.value.left, ast.Name) and s.value.left.id == "value" and pred(s.value.right))
+
+
+def empty_is_null(s):
+    """`if len(self.decomposition_dict) == 0: value = np.zeros(Point.counter)` -- re-binds the accumulator local only"""
+    return (isinstance(s, ast.If) and not s.orelse and ast.unparse(s.test) == "len(self.decomposition_dict) == 0"
+            and len(s.body) == 1 and isinstance(s.body[0], ast.Assign) and len(s.body[0].targets) == 1
+            and isinstance(s.body[0].targets[0], ast.Name) and s.body[0].targets[0].id == "value"
+            and ast.unparse(s.body[0].value) == "np.zeros(Point.counter)")
+
+
 def fold_shape(stmts, cls):
-    """the else-branch of shape A -> list of branch terms"""
-    if len(stmts) != 3:
+    """the else-branch of shape A -> list of branch terms.
+       `value = <init>`; `for <key>, weight in self.decomposition_dict.items(): <body>`; [<trailing>]; `self._value = value`
+       the accumulator is the LOCAL `value` (anything that writes self._value before the last statement is rejected);
+       <trailing> (points only, optional) ::= `if len(self.decomposition_dict) == 0: value = np.zeros(Point.counter)`"""
+    if len(stmts) < 3:
         raise Bad("fold: expected `value = ..; for ..; self._value = value`")
-    init, loop, store = stmts
+    init, loop, trailing, store = stmts[0], stmts[1], stmts[2:-1], stmts[-1]
     if not (isinstance(init, ast.Assign) and len(init.targets) == 1 and isinstance(init.targets[0], ast.Name)
             and init.targets[0].id == "value"):
         raise Bad("fold: line %d: expected `value = <init>`" % init.lineno)
@@ -125,9 +147,24 @@ def fold_shape(stmts, cls):
         raise Bad("fold: line %d: expected `for <key>, weight in self.decomposition_dict.items():`" % loop.lineno)
     key = loop.target.elts[0].id
     body = loop.body
-    # points: a single statement  value += weight * key.eval()
-    if len(body) == 1 and value_plus(body[0], lambda r: weight_times(r, lambda x: is_eval_call(x, key))):
+    term = lambda r: weight_times(r, lambda x: is_eval_call(x, key))
+    # points, in place on a preallocated vector: value = np.zeros(Point.counter); value += weight * key.eval()
+    if len(body) == 1 and value_plus(body[0], term):
+        if trailing:
+            raise Bad("fold: line %d: statement between the loop and `self._value = value`" % trailing[0].lineno)
+        if ast.unparse(init.value) != "np.zeros(Point.counter)":
+            raise Bad("fold: line %d: in-place fold must start from np.zeros(Point.counter)" % init.lineno)
         return ["BAny"]
+    # points, by re-binding: value = 0; value = value + weight * key.eval(); optional null vector for the empty sum
+    if len(body) == 1 and value_rebind(body[0], term):
+        if not (isinstance(init.value, ast.Constant) and init.value.value == 0 and not isinstance(init.value.value, bool)):
+            raise Bad("fold: line %d: re-binding fold must start from 0" % init.lineno)
+        if len(trailing) > 1 or (trailing and not empty_is_null(trailing[0])):
+            raise Bad("fold: line %d: trailing statement outside the grammar: %s" % (
+                trailing[0].lineno, ast.unparse(trailing[0]).split("\n")[0][:60]))
+        return ["BSum %s" % ("true" if trailing else "false")]
+    if trailing:
+        raise Bad("fold: line %d: statement between the loop and `self._value = value`" % trailing[0].lineno)
     # expressions: if type(key) == Expression: .. elif type(key) == tuple: .. elif key == 1: .. else: raise
     if len(body) != 1 or not isinstance(body[0], ast.If):
         raise Bad("fold: line %d: loop body outside the grammar" % loop.lineno)
